@@ -156,7 +156,7 @@ def build_class(case, sm_mod, log, clock, scripts_abs):
     def _sm_call(self, i, kw):
         k = self._k
         self._k += 1
-        rec = ["call", i, None, None, None, bool(self.is_executing)]
+        rec = ["call", i, None, None, None, bool(self.is_executing), k, clock.t]
         if "tm" in kw:
             rec[2] = kw["tm"]
         if "state_tm" in kw:
@@ -166,6 +166,7 @@ def build_class(case, sm_mod, log, clock, scripts_abs):
         log.append(rec)
         acts = case["scripts"][k] if k < len(case["scripts"]) else []
         out = []
+        self._depth += 1
         for a in acts:
             if a[0] == "next":
                 out.append(["next", a[1]])
@@ -176,16 +177,18 @@ def build_class(case, sm_mod, log, clock, scripts_abs):
             else:
                 clock.t += a[2]
                 out.append(["now", a[1], clock.t])
+                log.append(["now"])
                 self.next_state_now(sname(a[1]))
+        self._depth -= 1
         scripts_abs[k] = out
 
     def next_state(self, name):
         nm = name if isinstance(name, str) else name.name
-        log.append(["enter", int(nm[1:])])
+        log.append(["enter", int(nm[1:]), bool(self.is_executing), self._depth])
         super(cls_holder[0], self).next_state(name)
 
     def done(self):
-        log.append(["done"])
+        log.append(["done", bool(self.is_executing), self._depth])
         super(cls_holder[0], self).done()
 
     cls_holder = [None]
@@ -220,6 +223,7 @@ def run_impl(case, tag="x"):
     C = build_class(case, sm_mod, log, clock, scripts_abs)
     m = C()
     m._k = 0
+    m._depth = 0
     import logging
     m.logger = logging.getLogger("verif.sm")
     m.logger.setLevel(logging.CRITICAL + 1)
@@ -265,7 +269,7 @@ def run_impl(case, tag="x"):
         evs = []
         for rec in log:
             if rec[0] == "call":
-                evs.append(["call", rec[1], _ticks(rec[2]), _ticks(rec[3]), rec[4], rec[5]])
+                evs.append(["call", rec[1], _ticks(rec[2]), _ticks(rec[3]), rec[4], rec[5], rec[6], rec[7]])
             else:
                 evs.append(list(rec))
         if err is not None:
@@ -362,7 +366,7 @@ def coq_case(case, obs, scripts_abs):
         coq_shape(case), coq_list(durs),
         coq_list([coq_list([coq_action(a) for a in acts]) for acts in sa]),
         coq_list([coq_op(o) for o in case["hist"][:len(obs)]]),
-        coq_list(["(%s, %s, %s)" % (coq_list([coq_oev(e) for e in evs]), coq_bool(ex), coq_opt(cur, coq_nat))
+        coq_list(["(%s, %s, %s)" % (coq_list([coq_oev(e) for e in evs if e[0] != "now"]), coq_bool(ex), coq_opt(cur, coq_nat))
                   for evs, ex, cur in obs])))
 
 
@@ -393,93 +397,427 @@ def correspondence(ctx, cases_with_obs, label="sm", shard=200):
 
 
 # ----------------------------------------------------------------------------------
-# property oracles over IMPLEMENTATION traces (used only by the search)
-def flat_calls(evs):
-    return [e for e in evs if e[0] == "call"]
-
-
-def oracle(case, obs, scripts_abs, which):
-    """Returns a list of violation strings of property `which` on this implementation trace,
-    restricted to histories inside the usage contract K (see DESIGN 6.1)."""
+# property oracles over IMPLEMENTATION traces (used only by the search and the replay;
+# they state the properties directly, they are not the deciding method)
+def oracle(case, obs):
+    """Returns a list of (property id, message) for clauses of C01-C04/C13 that fail on this
+    implementation trace, evaluated only while the history stays inside the usage contract K."""
     out = []
     default = case["default"]
+    first = case["first"]
     st = case["states"]
+    auto = case["auto"]
 
     def must(i):
         return st[str(i)]["must"]
 
     def regular(i):
         return i != default and not must(i)
-    # reference bookkeeping
-    requested = False          # engage() since the previous execute
-    running = False            # regular machine activity (engaged)
-    idle = True                # stopped: nothing but the default may run until engage()
-    entered = {}               # state -> True when entered and not yet called
-    off_contract = False
-    prev_exec = False
-    lastcall = {}              # state -> (tm, stm) of the previous consecutive call of the same entry
-    auto_latch = False
+
+    requested = False        # engage() since the previous iteration
+    prev_exec = False        # is_executing after the previous operation
+    pending = {}             # state -> entered and not yet called
+    last = {}                # state -> (tm, stm, eng) of the previous call of the same entry
+    has_state = False        # the machine has a (non-default) state to run
+    fresh = None             # state that must be called next with initial_call, tm == 0 (after engage on a stopped machine)
+    latch = False            # AutonomousStateMachine latch (lifecycle ops only)
+    lifecycle = auto and case["hist"] and case["hist"][0][0] == "aenable"
+    stopped_since = True     # stopped and not re-engaged
+    maxclk = -1
+    nonneg_durs = all((v["dur"] or 0) >= 0 for v in st.values())
     for opi, (op, (evs, is_exec, cur)) in enumerate(zip(case["hist"], obs)):
         kind = op[0]
-        if any(e[0] == "err" for e in evs):
-            out.append("op %d %r raised %s" % (opi, op, [e for e in evs if e[0] == "err"]))
+        errs = [e for e in evs if e[0] == "err"]
+        if errs:
+            out.append(("C01", "op %d %r: exception %s escaped" % (opi, op, errs[0][1])))
             break
-        is_iter = kind in ("execute", "aiter")
-        if kind == "aenable":
-            auto_latch = True
-        if kind == "engage":
-            requested = True
-        if kind == "aiter" and auto_latch:
-            requested = True
-        calls = flat_calls(evs)
-        ndone = sum(1 for e in evs if e[0] == "done")
-        # --- detect off-contract use: actions while not executing, transitions into the default state
-        k_eng = prev_exec
+        # ---- usage contract: stop judging once the history leaves it
+        off = False
+        if kind in ("execute", "aiter"):
+            if op[1] < maxclk:
+                off = True       # the (injected) clock went backwards
+            maxclk = max(maxclk, op[1])
         for e in evs:
+            if e[0] == "call":
+                if e[7] < maxclk:
+                    off = True
+                maxclk = max(maxclk, e[7])
             if e[0] == "enter" and default is not None and e[1] == default:
-                off_contract = True
-        if off_contract:
+                off = True
+            if e[0] in ("enter", "done") and e[-1] > 0 and not e[-2]:
+                off = True       # in-state action while the machine is not executing
+        if off:
             break
-        # entries
+        is_iter = kind == "execute" or (kind == "aiter" and latch)
+        if kind == "aenable":
+            latch = True
+        if kind == "engage" or (kind == "aiter" and latch):
+            if not prev_exec and not requested:
+                fresh = ("any", op[1] if kind == "engage" and op[1] is not None else first)
+            requested = True
+            stopped_since = False
+        calls = [e for e in evs if e[0] == "call"]
+        ndone = sum(1 for e in evs if e[0] == "done")
+        nnow = sum(1 for e in evs if e[0] == "now")
+        had_state = has_state
+        if kind == "aiter" and not latch:
+            if evs:
+                out.append(("C13", "op %d %r: latch is off but on_iteration produced %r" % (opi, op, evs[:3])))
+            if is_exec:
+                out.append(("C13", "op %d %r: is_executing is True after on_iteration with the latch off" % (opi, op)))
+        # walk the events in order
+        seen_done = False
         for e in evs:
             if e[0] == "enter":
-                entered[e[1]] = True
-                lastcall.pop(e[1], None)
-        if is_iter:
-            # C01: regular states only when requested
-            if not requested:
-                for c in calls:
-                    if regular(c[1]):
-                        out.append("C01: op %d %r: regular state s%d called without engage() since the previous iteration" % (opi, op, c[1]))
-            # C03 / C02: non-negative times, initial_call
-            for c in calls:
-                s, tm, stm, init, eng = c[1], c[2], c[3], c[4], c[5]
+                pending[e[1]] = True
+                last.pop(e[1], None)
+                has_state = True
+            elif e[0] == "done":
+                has_state = False
+                seen_done = True
+            elif e[0] == "call":
+                s, tm, stm, init, eng = e[1], e[2], e[3], e[4], e[5]
+                if lifecycle and seen_done and s != default:
+                    out.append(("C13", "op %d %r: s%d ran after done() in the same on_iteration (the machine cycled)" % (opi, op, s)))
+                if is_iter and not requested and regular(s):
+                    out.append(("C01", "op %d %r: regular state s%d ran without engage() since the previous iteration" % (opi, op, s)))
+                if stopped_since and s != default:
+                    out.append(("C04", "op %d %r: s%d ran although the machine was stopped and engage() was not called" % (opi, op, s)))
                 if stm is not None and not isinstance(stm, tuple) and stm < 0:
-                    out.append("C02/C03: op %d: state_tm of s%d is negative (%s ticks)" % (opi, s, stm))
-                if tm is not None and not isinstance(tm, tuple) and tm < 0 and (eng or s != default):
-                    out.append("C03: op %d: tm of s%d is negative (%s ticks)" % (opi, s, tm))
+                    out.append(("C02", "op %d %r: state_tm of s%d is negative (%d ticks)" % (opi, op, s, stm)))
+                if tm is not None and not isinstance(tm, tuple) and tm < 0 and eng:
+                    out.append(("C03", "op %d %r: tm of s%d is negative (%d ticks)" % (opi, op, s, tm)))
+                if nonneg_durs and eng and isinstance(tm, int) and isinstance(stm, int) and stm > tm:
+                    out.append(("C03", "op %d %r: s%d got state_tm (%d) > tm (%d): parameters mixed up" % (opi, op, s, stm, tm)))
+                if init is not None and not isinstance(init, bool):
+                    out.append(("C03", "op %d %r: initial_call of s%d is not a bool: %r" % (opi, op, s, init)))
                 if init is not None and s != default:
-                    exp_init = bool(entered.get(s, False))
-                    if init != exp_init:
-                        out.append("C03: op %d: initial_call of s%d is %s but %s" % (
-                            opi, s, init, "the state was entered since its last call" if exp_init else "it is a consecutive call"))
-                entered[s] = False
-            # C04: status after the iteration
-            nondefault_calls = [c for c in calls if c[1] != default]
-            if not is_exec:
-                if cur is not None:
-                    out.append("C04: op %d: is_executing is False but current_state is s%d" % (opi, cur))
-            if prev_exec and not is_exec and ndone == 0:
-                out.append("C04: op %d %r: machine stopped without done() being invoked" % (opi, op))
+                    exp = bool(pending.get(s, False))
+                    if bool(init) != exp:
+                        out.append(("C03", "op %d %r: initial_call of s%d is %r but %s" % (
+                            opi, op, s, init, "the state was entered since its last call" if exp else "this is a consecutive call")))
+                if s in last and not pending.get(s, False) and init is not True and s != default:
+                    ptm, pstm, peng = last[s]
+                    if isinstance(stm, int) and isinstance(pstm, int) and stm < pstm:
+                        out.append(("C03", "op %d %r: state_tm of s%d decreased over consecutive calls (%d -> %d)" % (opi, op, s, pstm, stm)))
+                if fresh is not None and s != default:
+                    if s != fresh[1]:
+                        out.append(("C04", "op %d %r: after engage() on a stopped machine s%d ran first, expected s%d" % (opi, op, s, fresh[1])))
+                    else:
+                        if init is False:
+                            out.append(("C04", "op %d %r: restart of s%d with initial_call False" % (opi, op, s)))
+                        if isinstance(tm, int) and tm != 0:
+                            out.append(("C04", "op %d %r: restart of s%d with tm = %d ticks, expected 0" % (opi, op, s, tm)))
+                    fresh = None
+                pending[s] = False
+                last[s] = (tm, stm, eng)
+        if is_iter:
+            if requested and had_state and not auto and not seen_done:
+                if len(calls) != 1 + nnow:
+                    out.append(("C01", "op %d %r: requested iteration ran %d state functions with %d next_state_now()" % (opi, op, len(calls), nnow)))
+            if not requested and all(c[1] == default for c in calls) and is_exec:
+                out.append(("C01", "op %d %r: no engage(), no must_finish state ran, but the machine is still executing" % (opi, op)))
+            if is_exec and cur is None:
+                out.append(("C04", "op %d %r: is_executing is True but current_state is ''" % (opi, op)))
             requested = False
-        else:
-            if kind in ("done", "ondisable", "adisable"):
-                if is_exec or cur is not None:
-                    out.append("C04: op %d %r: after done()/on_disable() is_executing=%s current_state=%r" % (opi, op, is_exec, cur))
-                if kind == "adisable":
-                    auto_latch = False
-        if kind == "aiter":
-            if not is_exec:
-                auto_latch = False
+        if not is_exec and cur is not None and kind not in ("engage",):
+            out.append(("C04", "op %d %r: is_executing is False but current_state is s%d" % (opi, op, cur)))
+        if prev_exec and not is_exec and ndone == 0:
+            out.append(("C04", "op %d %r: the machine stopped without done() being invoked" % (opi, op)))
+        if kind in ("done", "ondisable", "adisable"):
+            if is_exec or cur is not None:
+                out.append(("C04", "op %d %r: after done()/on_disable() is_executing=%s current_state=%r" % (opi, op, is_exec, cur)))
+            has_state = False
+            fresh = None
+            if kind == "adisable":
+                latch = False
+        if kind == "aiter" and latch and not is_exec:
+            latch = False
+        if lifecycle and kind == "aiter" and seen_done and is_exec:
+            out.append(("C13", "op %d %r: done() was invoked but the machine is executing after on_iteration" % (opi, op)))
+        if not is_exec and not requested:
+            stopped_since = True
+        if not is_exec:
+            last.clear() if False else None
         prev_exec = is_exec
-    return [v for v in out if which is None or v.startswith(tuple(which)) or v.startswith("op ")]
+    out += oracle_chain(case, obs)
+    return out
+
+
+def oracle_chain(case, obs):
+    """C02 on quiet, continuously engaged, plain machines: an independent reference of the
+    property (entries on the expiry grid, one hand-over per iteration)."""
+    if case["auto"] or case["default"] is not None:
+        return []
+    if any(acts for acts in case["scripts"]):
+        return []
+    h = case["hist"]
+    if not h or any(op[0] not in ("engage", "execute", "setdur") for op in h):
+        return []
+    st = case["states"]
+    dur = {int(k): v["dur"] for k, v in st.items()}
+    out = []
+    cur = None
+    origin = 0
+    ran = False
+    entry = exp = 0
+    requested = False
+    engaged = False
+    for opi, (op, (evs, is_exec, c)) in enumerate(zip(h, obs)):
+        if op[0] == "setdur":
+            dur[op[1]] = op[2]
+            continue
+        if op[0] == "engage":
+            if op[1] is not None or op[2]:
+                return out
+            requested = True
+            if cur is None:
+                cur = case["first"]
+                ran = False
+            continue
+        now = op[1]
+        if not requested:
+            return out               # a gap: the chain clause is about continuous engagement
+        if not engaged:
+            origin = now
+            engaged = True
+        tm = now - origin
+        nss = tm
+        if ran and st[str(cur)]["timed"] and exp < tm:
+            nxt = st[str(cur)]["next"]
+            nss = exp
+            if nxt is None:
+                origin += exp
+                tm -= exp
+                nss = 0
+                cur = case["first"]
+            else:
+                cur = nxt
+            ran = False
+        init = not ran
+        if init:
+            entry = nss
+            d = dur[cur] if st[str(cur)]["timed"] else INF
+            exp = nss + d
+            ran = True
+        want = (cur, tm, tm - entry, init)
+        calls = [e for e in evs if e[0] == "call"]
+        if len(calls) != 1:
+            out.append(("C02", "op %d %r: %d state functions ran in a quiet engaged iteration" % (opi, op, len(calls))))
+            return out
+        e = calls[0]
+        got = (e[1], e[2], e[3], e[4])
+        for w, g, nm in zip(want, got, ("state", "tm", "state_tm", "initial_call")):
+            if g is not None and g != w:
+                out.append(("C02", "op %d %r: quiet continuously engaged chain: %s is %r, the duration grid requires %r "
+                                   "(state s%d entered at machine time %d, expiry %d)" % (opi, op, nm, g, w, cur, entry, exp)))
+                return out
+        requested = False
+    return out
+
+
+# ----------------------------------------------------------------------------------
+PROFILE = {
+    "C01": dict(auto=0.1, profiles=["gapped", "lazy", "chaotic", "continuous"]),
+    "C02": dict(auto=0.1, profiles=["continuous", "continuous", "chain", "chain", "gapped"]),
+    "C03": dict(auto=0.2, profiles=["continuous", "gapped", "chaotic", "chain"]),
+    "C04": dict(auto=0.1, profiles=["chaotic", "lazy", "gapped", "continuous"]),
+    "C13": dict(auto=1.0, profiles=["continuous"]),
+}
+
+
+def gen_for(pid, r):
+    pr = PROFILE[pid]
+    auto = r.random() < pr["auto"]
+    prof = r.choice(pr["profiles"])
+    if prof == "chain":
+        return gen_chain(r)
+    return gen_case(r, auto=auto, profile=prof)
+
+
+def gen_chain(r):
+    """Timed chains / cycles, quiet bodies, continuous engagement, arbitrary loop periods."""
+    n = r.choice([1, 2, 2, 3, 3, 4])
+    order = list(range(n))
+    r.shuffle(order)
+    states = {}
+    for pos, i in enumerate(order):
+        last = pos == n - 1
+        nxt = None if (last and r.random() < 0.6) else (order[0] if last else order[pos + 1])
+        states[i] = dict(kind="timed", must=r.random() < 0.2, timed=True,
+                         dur=r.choice([0, 1, 2, 3, 4, 4, 8, 8, 16, 32]), next=nxt,
+                         params=list(r.choice(PARAM_ORDERS)))
+    if n >= 2 and r.random() < 0.25:      # an untimed state in the middle stops the chain there
+        i = order[r.randrange(1, n)]
+        states[i].update(kind="state", timed=False, dur=None, next=None)
+    hist = []
+    t = r.choice([0, 5, 64, 1000])
+    stepset = r.choice([[1], [1, 2, 3], [0, 1, 2, 3, 5, 8], [5, 8, 13], [8, 40, 400], [1, 1, 1, 40]])
+    timed_ids = [i for i in range(n) if states[i]["timed"]]
+    for _ in range(r.randrange(10, 45)):
+        if r.random() < 0.05 and timed_ids:
+            hist.append(["setdur", r.choice(timed_ids), r.choice([0, 1, 2, 4, 8, 16])])
+        hist.append(["engage", None, False])
+        t += r.choice(stepset)
+        hist.append(["execute", t])
+    return dict(n=n, first=order[0], default=None, states={str(k): v for k, v in states.items()},
+                auto=False, split=n, scripts=[[] for _ in range(4)], hist=hist)
+
+
+def nontrivial(obs):
+    called = set()
+    dones = 0
+    for evs, _, _ in obs:
+        for e in evs:
+            if e[0] == "call":
+                called.add(e[1])
+            elif e[0] == "done":
+                dones += 1
+    return len(called) >= 2 and dones >= 1
+
+
+def shrink(case, pid):
+    """Shortest prefix (and fewest script actions) that still violates property pid."""
+    def bad(c):
+        try:
+            o, _ = run_impl(c, tag="shr")
+        except Exception:
+            return False
+        return any(p == pid for p, _ in oracle(c, o))
+    best = case
+    lo = 1
+    for n in range(1, len(case["hist"]) + 1):
+        c = dict(case, hist=case["hist"][:n])
+        if bad(c):
+            best = c
+            break
+    # drop script entries that are not needed
+    for k in range(len(best["scripts"])):
+        if best["scripts"][k]:
+            c = dict(best, scripts=[([] if j == k else a) for j, a in enumerate(best["scripts"])])
+            if bad(c):
+                best = c
+    # drop single operations
+    i = 0
+    while i < len(best["hist"]):
+        c = dict(best, hist=best["hist"][:i] + best["hist"][i + 1:])
+        if len(c["hist"]) >= 1 and bad(c):
+            best = c
+        else:
+            i += 1
+    return best
+
+
+def violation_record(case, pid):
+    obs, sa = run_impl(case, tag="viol")
+    msgs = [m for p, m in oracle(case, obs) if p == pid]
+    return {"kind": "input", "what": msgs[0] if msgs else "?", "fingerprint": "%s:%s" % (pid, (msgs[0].split(":", 1)[1].strip()[:40] if msgs else "?")),
+            "case": case, "implementation_trace": obs, "all_messages": msgs[:6]}
+
+
+def sm_check(ctx, pid):
+    """The check of one property of the StateMachine family."""
+    from . import common
+    ctx.assumptions.append(
+        "%s: StateMachine model SM.Model; clock arithmetic idealised over Z ticks (dyadic clocks, 1/64 s, in the correspondence); "
+        "theorems hold inside the usage contract K of DESIGN.md 6.1 where stated (hypothesis `ok`); single-threaded use" % pid)
+    ctx.prove()
+    n = {"quick": 2000, "thorough": 48000}[ctx.tier]
+    r = ctx.rng
+    cases = []
+    # corpus first
+    cdir = os.path.join(common.CORPUS, pid)
+    corpus_cases = []
+    if os.path.isdir(cdir):
+        for f in sorted(os.listdir(cdir)):
+            if f.endswith(".json"):
+                corpus_cases.append(json.load(open(os.path.join(cdir, f)))["case"])
+    gen = corpus_cases + [gen_for(pid, r) for _ in range(n)]
+    impl_fail = []
+    seen = set()
+    ntriv = 0
+    for i, c in enumerate(gen):
+        try:
+            obs, sa = run_impl(c, tag=pid)
+        except Exception as e:      # the driver itself failed (class could not be built, ...)
+            impl_fail.append((i, repr(e)))
+            continue
+        cases.append((c, obs, sa))
+        for op in c["hist"]:
+            ctx.count("op=" + op[0])
+        ctx.count("auto" if c["auto"] else "plain")
+        ctx.count("states=%d" % c["n"])
+        if c["default"] is not None:
+            ctx.count("has_default")
+        key = json.dumps([c["states"], c["hist"], sa], sort_keys=True)
+        if key not in seen:
+            seen.add(key)
+            if nontrivial(obs):
+                ntriv += 1
+    ctx.obligation("corr:every generated machine could be built and driven", not impl_fail, repr(impl_fail[:3]))
+    bad = correspondence(ctx, cases, label=pid.lower())
+    ctx.coverage.update({
+        "evaluations": len(cases),
+        "traces_validated_against_impl": len(cases),
+        "distinct_nontrivial": ntriv,
+        "rule": "generated machine shapes (1-5 states, timed/must_finish/default, next links, inheritance split, all 16 parameter "
+                "orders) x scripted state functions (next_state/next_state_now/done per invocation) x histories of engage/done/"
+                "on_disable/execute/duration writes (or the autonomous lifecycle) under an injected dyadic clock; profile mix for "
+                "%s: %s; non-trivial = distinct case in which >= 2 distinct states ran and done() was invoked at least once" % (pid, PROFILE[pid]),
+        "samples": [{"shape": c["states"], "first": c["first"], "default": c["default"], "auto": c["auto"],
+                     "history": c["hist"][:12], "trace": o[:12]} for c, o, _ in cases[len(corpus_cases):len(corpus_cases) + 3]],
+        "exhaustive": False,
+    })
+
+    def search():
+        found = []
+        # 1. the disagreeing cases themselves
+        for i in bad[:200]:
+            c, o, _ = cases[i]
+            if any(p == pid for p, _ in oracle(c, o)):
+                found.append(violation_record(shrink(c, pid), pid))
+                return found
+        # 2. everything this run generated, then a larger batch
+        for c, o, _ in cases:
+            if any(p == pid for p, _ in oracle(c, o)):
+                found.append(violation_record(shrink(c, pid), pid))
+                return found
+        import time
+        t0 = time.time()
+        extra = 0
+        while extra < 10 * n and time.time() - t0 < (120 if ctx.tier == "quick" else 600):
+            c = gen_for(pid, r)
+            extra += 1
+            try:
+                o, _ = run_impl(c, tag=pid + "s")
+            except Exception:
+                continue
+            if any(p == pid for p, _ in oracle(c, o)):
+                found.append(violation_record(shrink(c, pid), pid))
+                return found
+        ctx.coverage["search_extra_cases"] = extra
+        if bad:
+            c, o, sa = cases[bad[0]]
+            ctx.coverage["first_disagreeing_case"] = {"case": c, "implementation_trace": o}
+        return found
+
+    return ctx.finish(search=search)
+
+
+def sm_replay(ctx, pid, obj):
+    if obj.get("kind") != "input":
+        print("replay names broken obligations only: %s" % [b.get("name") for b in obj.get("broken_obligations", [])])
+        return sm_check(ctx, pid)
+    case = obj["case"]
+    obs, _ = run_impl(case, tag="rep")
+    msgs = [m for p, m in oracle(case, obs) if p == pid]
+    print("history:", case["hist"])
+    for o in obs:
+        print("  ", o)
+    for m in msgs:
+        print("violates %s: %s" % (pid, m))
+    if msgs:
+        print("VIOLATION property=%s replay=(replayed)" % pid)
+        return 1
+    print("no clause of %s fails on this history" % pid)
+    return 0
